@@ -12,6 +12,7 @@ From RM Require C09.Model.
 From RM Require Import Base.Word C08.Model C08.Proofs C09.Grammar C09.Driver C09.Proofs C09.ProofsBytes
                        C09.ProofsFinish C09.ProofsFinal.
 From RM Require Import C11.Model C11.Proofs1 C11.Proofs2 C11.Proofs5 C11.Proofs6 C11.Proofs7 C11.Proofs8 C11.Text C11.Text2.
+From RM Require C11.Driver.
 Import ListNotations.
 Open Scope Z_scope.
 
@@ -539,3 +540,41 @@ Proof.
   destruct (equals_linear_scan p rf mbase instr Hwf Hno Hmb Hi) as (o & Eo & Hspec).
   exists o. split; [|exact Hspec]. rewrite (Heq p mbase instr Hmb (proj2 Hi)). exact Eo.
 Qed.
+
+(* any list of decisions (line recognised / line dropped): what the correspondence driver's text front-end
+   ([Driver.table_of_text]: replay, finish, symtab_of_table) computes *)
+Lemma from_replay nm tg (ds : list (bool * rle)) q :
+  RM.C09.Model.replay rle pst recog_pst bump_pst lineno_pst init_pst ds = inl q ->
+  RM.C09.Model.size rle cllen (map snd ds) < two32 - 1 -> enc_names_ok nm tg q ->
+  exists t, finish q = Ret t /\
+    wf_file (raw_of_pst nm tg q) /\ st_rel true (raw_of_pst nm tg q) (symtab_of_table nm tg t) /\
+    forall p mbase instr, 0 <= mbase -> instr < two64 ->
+      fill_symbol p (symtab_of_table nm tg t) mbase instr = symbolize p (raw_of_pst nm tg q) mbase instr.
+Proof.
+  intros Hr Hsz He.
+  destruct (replay_wf ds init_pst q init_pst_wf Hr) as [W _].
+  destruct (finish_total q W) as [t Ht]. exists t. split; [exact Ht|].
+  pose proof (replay_rng ds 0 init_pst q (Z.le_refl 0) init_pst_rng Hr) as R. rewrite Z.add_0_l in R.
+  pose proof (enc_ok_of_rng nm tg _ q R Hsz He) as Hok.
+  split; [exact (eo_wf nm tg _ Hok)|].
+  pose proof (table_rel nm tg q t Hok Ht) as T. split; [exact T|].
+  intros p mbase instr Hmb Hi. apply table_interface; [exact (eo_wf nm tg _ Hok)|exact T|exact Hmb|exact Hi].
+Qed.
+
+Lemma text_driver_correct nm tg (ds : list (bool * rle)) q :
+  RM.C09.Model.replay rle pst recog_pst bump_pst lineno_pst init_pst ds = inl q ->
+  RM.C09.Model.size rle cllen (map snd ds) < two32 - 1 -> enc_names_ok nm tg q ->
+  exists st, RM.C11.Driver.table_of_text nm tg ds = Ret (Some st) /\
+    wf_file (raw_of_pst nm tg q) /\ st_rel true (raw_of_pst nm tg q) st /\
+    forall p mbase instr, 0 <= mbase -> instr < two64 ->
+      fill_symbol p st mbase instr = symbolize p (raw_of_pst nm tg q) mbase instr.
+Proof.
+  intros Hr Hsz He. destruct (from_replay nm tg ds q Hr Hsz He) as (t & Ht & Hwf & Hrel & Heq).
+  exists (symtab_of_table nm tg t). split; [|split; [exact Hwf|split; [exact Hrel|exact Heq]]].
+  unfold RM.C11.Driver.table_of_text. rewrite Hr, Ht. reflexivity.
+Qed.
+
+Lemma replay_rng0 (ds : list (bool * rle)) q :
+  RM.C09.Model.replay rle pst recog_pst bump_pst lineno_pst init_pst ds = inl q ->
+  pst_rng (RM.C09.Model.size rle cllen (map snd ds)) q.
+Proof. intros H. exact (replay_rng ds 0 init_pst q (Z.le_refl 0) init_pst_rng H). Qed.
